@@ -19,6 +19,7 @@ EXPLANATION = (
 RULE = "one obligation per lock region, per wrapped-call site, per exit class of the leader path, per take/complete/cancel site, per Pending return"
 TRUSTED = ["parking_lot::Mutex", "tokio broadcast channel", "hashbrown::HashMap", "may-unwind policy table"]
 ASSUMPTIONS = []
+CONFIG_CRATES = ["tower_resilience_coalesce"]
 TECHNIQUE = "static analysis of built MIR: lock-region rule, acquire/release pairing over unwind edges (RAII-aware), ordering of Option::take against the inner poll, lost-wakeup rule"
 
 CRATE = "tower_resilience_coalesce"
